@@ -56,7 +56,8 @@ let timed (f : unit -> 'a) (dflt : 'a) : 'a =
 
 (* ---- objects ---- *)
 type obj = { topo : string; dim : int; flags : string; s : sys; cons : con list; gens : gen list; ok : int;
-             w : string (* which operator produced it *) }
+             lin : int (* dimension of the lineality space, as the library reports it; -1 unknown *);
+             w : string (* which operator produced it *); args : int list (* its operands *) }
 let parse_st tag line =
   let c = { t = split line } in
   if next c <> tag then raise (Syntax ("expected " ^ tag ^ ": " ^ line));
@@ -67,7 +68,8 @@ let parse_st tag line =
   let gens = read_gens c dim in
   if next c <> "ok" then raise (Syntax "expected ok");
   let ok = nexti c in
-  id, { topo; dim; flags; s = sys_of_cons cons; cons; gens; ok; w = "" }
+  let lin = (match c.t with "lin" :: v :: _ -> int_of_string v | _ -> -1) in
+  id, { topo; dim; flags; s = sys_of_cons cons; cons; gens; ok; lin; w = ""; args = [] }
 
 let pool : (int, obj) Hashtbl.t = Hashtbl.create 64
 let get id = try Hashtbl.find pool id with Not_found -> raise (Syntax (Printf.sprintf "unknown object %d" id))
@@ -191,7 +193,7 @@ let () =
               let id', r = parse_st "st" (rd ()) in
               let _, ya = parse_st "sty" (rd ()) in
               let w = if r.topo = "C" || r.topo = "NNC" then w else r.topo ^ "." ^ w in
-              let r = { r with w = w } in
+              let r = { r with w = w; args = [int_of_string x; int_of_string y] } in
               assert (id' = int_of_string id);
               Hashtbl.replace pool id' r;
               let xo = get (int_of_string x) and yo = get (int_of_string y) in
@@ -226,7 +228,7 @@ let () =
               let id', r = parse_st "st" (rd ()) in
               let _, ya = parse_st "sty" (rd ()) in
               let w = if r.topo = "C" || r.topo = "NNC" then w else r.topo ^ "." ^ w in
-              Hashtbl.replace pool id' { r with w = w ^ "/" ^ kind };
+              Hashtbl.replace pool id' { r with w = w ^ "/" ^ kind; args = [int_of_string x; int_of_string y] };
               let xo = get (int_of_string x) and yo = get (int_of_string y) in
               let c = { t = rest } in
               if next c <> "cons" then raise (Syntax "expected cons");
@@ -350,7 +352,9 @@ let () =
            incr step;
            let ao = get (int_of_string a) and bo = get (int_of_string b) in
            bump ("same:" ^ ao.w);
-           report (ao.w ^ "/value-dependence:" ^ ao.topo) (match equiv ao bo with
+           (* triggering condition: topology, and whether the larger operand has lines *)
+           let lines = (match ao.args with x :: _ -> (try (get x).lin > 0 with _ -> false) | [] -> false) in
+           report (ao.w ^ "/value-dependence:" ^ ao.topo ^ (if lines then "+lines" else "")) (match equiv ao bo with
              | Some true -> Ok
              | Some false -> Fail "equal arguments (verified) in different representations gave different results (verified)"
              | None -> Undecided)
